@@ -11,6 +11,33 @@ def emit_all(emit):
 
     from cbv.props.c06 import tokenize
 
+    # the format string of constants.vector_format, read from the source: literal pieces and
+    # (component index, format spec) of every formatted value, in order
+    import ast
+    import inspect
+    import textwrap
+
+    fn = ast.parse(textwrap.dedent(inspect.getsource(constants.vector_format))).body[0]
+    rets = [n for n in ast.walk(fn) if isinstance(n, ast.Return)]
+    assert len(rets) == 1 and isinstance(rets[0].value, ast.JoinedStr), "vector_format is no longer a single f-string"
+    arg = fn.args.args[0].arg
+    pieces = []
+    for v in rets[0].value.values:
+        if isinstance(v, ast.Constant):
+            pieces.append(("lit", str(v.value)))
+        else:
+            assert isinstance(v, ast.FormattedValue) and isinstance(v.value, ast.Subscript), ast.dump(v)
+            assert isinstance(v.value.value, ast.Name) and v.value.value.id == arg, ast.dump(v)
+            spec = "" if v.format_spec is None else "".join(str(c.value) for c in v.format_spec.values)
+            conv = "" if v.conversion == -1 else "!" + chr(v.conversion)
+            pieces.append((ast.unparse(v.value.slice), conv + spec))
+    emit(
+        "c06VectorFormat",
+        "List (String × String)",
+        pieces,
+        "constants.vector_format (ast of the current source): ('lit', text) or (component index, format spec), in order",
+    )
+
     emit("c06Header", "List String", tokenize(constants.MESH_HEADER), "tokens of constants.MESH_HEADER")
     emit("c06Footer", "List String", tokenize(constants.MESH_FOOTER), "tokens of constants.MESH_FOOTER")
 
